@@ -1369,3 +1369,63 @@ func exprOf(n ast.Node) ast.Expr {
 	}
 	return nil
 }
+
+// E3RayImplicitClose: a necessary condition for counting the implicit closing segment of open sub-paths.
+func E3RayImplicitClose(c *core.Ctx, r *core.Report) {
+	r.Rule("E3.ray-implicit-close", "C06 defines Windings/Crossings/Contains on the implicitly closed sub-paths. RayIntersections can only intersect the closing segment of an open sub-path if it remembers the sub-path's first point: some Point variable is assigned in the MoveTo case (from the record's coordinates) and in no other case of the command switch, and is read outside that case. (Necessary, not sufficient: the rule does not check that the segment is intersected at the right moments.)")
+	p := c.MustPkg("")
+	info := p.TypesInfo
+	fd := core.MustFuncDecl(p, "Path.RayIntersections")
+	r.Func("canvas.Path.RayIntersections")
+	clauses := cmdSwitchClauses(p, fd)
+	assignedIn := map[types.Object]map[string]bool{}
+	for _, cc := range clauses {
+		label := strings.Join(core.CaseConsts(info, cc), ",")
+		for _, s := range cc.Body {
+			ast.Inspect(s, func(n ast.Node) bool {
+				if as, ok := n.(*ast.AssignStmt); ok {
+					for _, l := range as.Lhs {
+						if id, ok := l.(*ast.Ident); ok {
+							o := core.ObjOf(info, id)
+							if o != nil && isNamed(o.Type(), "tdewolff/canvas", "Point") {
+								if assignedIn[o] == nil {
+									assignedIn[o] = map[string]bool{}
+								}
+								assignedIn[o][label] = true
+							}
+						}
+					}
+				}
+				return true
+			})
+		}
+	}
+	found := false
+	for o, cases := range assignedIn {
+		if len(cases) != 1 || !cases["MoveToCmd"] {
+			continue
+		}
+		// read outside the MoveTo case
+		read := false
+		ast.Inspect(fd.Body, func(n ast.Node) bool {
+			id, ok := n.(*ast.Ident)
+			if !ok || core.ObjOf(info, id) != o || info.Defs[id] != nil {
+				return true
+			}
+			if inCaseOf(info, fd, id, "MoveToCmd") {
+				return true
+			}
+			read = true
+			return true
+		})
+		if read {
+			found = true
+		}
+	}
+	key := "canvas.Path.RayIntersections|first point of the sub-path remembered for the implicit closing segment"
+	if found {
+		r.OK("E3.ray-implicit-close", key, c.Pos(fd.Pos()), "")
+	} else {
+		r.Fail("E3.ray-implicit-close", key, c.Pos(fd.Pos()), "no variable keeps the first point of the current sub-path (every Point assigned in the MoveTo case is also advanced by the other cases): the segment that implicitly closes an open sub-path is never intersected, so Windings, Crossings and Contains ignore it")
+	}
+}
